@@ -178,6 +178,40 @@ type C16Holder struct {
 func (C16Holder) Hello(s string) string { return s }
 func (*C16Holder) PHello() bool         { return true }
 
+// ---- exported names that start with a NON-ASCII upper-case letter (Go exports by Unicode class Lu) ----
+type C16UniBase struct {
+	Ωmega float64
+	École string
+}
+type C16Unicode struct {
+	Ärger int
+	Über  string
+	Élan  func() int
+	ärger int // unexported: lower-case non-ASCII first letter
+	C16UniBase
+}
+
+func (C16Unicode) Österreich() string { return "at" }
+
+// ---- a method that shadows a function-valued field promoted from an embedded struct ----
+type C16FnBase struct {
+	Label func() int
+	Other func() int
+}
+type C16FnShadow struct {
+	C16FnBase
+	N int
+}
+
+func (C16FnShadow) Label() string { return "method" }
+
+type C16FnShadowPtr struct {
+	*C16FnBase
+	N int
+}
+
+func (*C16FnShadowPtr) Label() string { return "pmethod" }
+
 type c16envSpec struct {
 	name string
 	t    reflect.Type // struct type (used as T and as *T), or map type
@@ -194,6 +228,7 @@ var c16StructPool = []reflect.Type{
 	reflect.TypeOf(C16M1{}), reflect.TypeOf(C16M2{}), reflect.TypeOf(C16AmbM{}), reflect.TypeOf(C16PromV{}),
 	reflect.TypeOf(C16PromP{}), reflect.TypeOf(C16PromDeep{}), reflect.TypeOf(C16MethField{}),
 	reflect.TypeOf(C16Funcs{}), reflect.TypeOf(C16Holder{}),
+	reflect.TypeOf(C16Unicode{}), reflect.TypeOf(C16FnShadow{}), reflect.TypeOf(C16FnShadowPtr{}),
 }
 
 // method-less types reflect.StructOf may embed (by value and by pointer)
